@@ -80,11 +80,17 @@ def run_annotate(c):
     X = torch.zeros(3, 4, 40)
     idx = torch.randint(0, 4, (3, 40), generator=torch.Generator().manual_seed(c["seed"]))
     X.scatter_(1, idx.unsqueeze(1), 1.0)
-    rows = [[rng.randrange(3), s, s + rng.randint(4, 12)] for s in [rng.randint(0, 25) for _ in range(6)]]
+    # example 1 is a twin of example 0 except that example 0 has an unknown character (all-zero column) where the twin has 'A':
+    # seqlets over that position must not be confused with each other, whichever is processed together with which
+    X[1] = X[0]
+    X[1, :, 10] = 0; X[1, 0, 10] = 1
+    X[0, :, 10] = 0
+    rows = [[rng.randrange(3), s, s + rng.randint(4, 12)] for s in [rng.randint(0, 25) for _ in range(4)]]
+    rows += [[0, 6, 15], [1, 6, 15]]
     motifs = {"t%d" % i: torch.from_numpy(t) for i, t in enumerate(T)}
     evs = []
     digs = {}
-    for order in (list(range(6)), [5, 3, 1, 0, 2, 4], [2, 2, 0]):
+    for order in ([4], [5], list(range(6)), [5, 3, 1, 0, 2, 4], [2, 2, 0], [5, 4], [4, 5]):
         for threads in (1, c["threads"]):
             df = pandas.DataFrame([rows[i] for i in order], columns=["example_idx", "start", "end"])
             try:
